@@ -429,9 +429,19 @@ class AstInfo:
             True if self should be covered, False otherwise.
         """
         start_line = scope_line_range(self.ast)[0]
-        return self._in_cover(start_line) and all(
-            self._in_cover(scope_line_range(definition_node)[0])
-            for definition_node in self._enclosing_definitions()
+        return (
+            self._in_cover(start_line)
+            and all(
+                self._in_cover(scope_line_range(definition_node)[0])
+                for definition_node in self._enclosing_definitions()
+            )
+            # A definition inside an excluded block is excluded, too.
+            and (
+                isinstance(self.ast, ast.Module)
+                or AstInfo(ast=self.module.module_ast, module=self.module).should_cover_line(
+                    start_line
+                )
+            )
         )
 
     def should_cover_line(self, lineno: int) -> bool:
